@@ -10,6 +10,8 @@ import pulsarbat as pb
 
 from .. import exact, gen, probes, monitors, oracles
 
+from ..replay import wl_R
+
 RULE = ("stratified random signals (6 classes x length {0,1,2,prime,2^k,7-smooth+-1} x sample rank x rate decade mHz..4GHz x "
         "start {None, Time in utc/tai/tt}) x slices (missing/negative/out-of-range bounds, step 1-7, start>stop, combined with "
         "frequency/trailing indices), and pipelines (depth<=8) of slices, fast_len, cropped time shifts, whole-sample snippets, "
@@ -575,9 +577,15 @@ def wl_croppers(ctx, idx, rng):
         ctx.bucket(op, clsname, nchan, rk, "neg" if dmval < 0 else "pos")
 
 
+def install_universal(ctx):
+    monitors.GetitemMonitor(ctx, check_time=True, check_freq=False).install()
+    CropperMonitor(ctx).install()
+    return probes.detach_all
+
+
 def workloads(ctx):
     q = ctx.tier == "quick"
-    return [
+    return [("R", 1, wl_R), 
         ("slices", 2400 if q else 120000, wl_slices),
         ("pipeline", 400 if q else 20000, wl_pipeline),
         ("croppers", 480 if q else 24000, wl_croppers),
